@@ -5,9 +5,11 @@ observation. The harness prints the same lines from the real library; `diff` is 
 -/
 import MRL.Model.Disk
 import MRL.Model.PowerLoss
+import MRL.Model.PowerLossDir
 import MRL.Proofs.Journal
 import MRL.Model.FileName
 import MRL.Model.Panic
+import MRL.Model.PanicCalls
 
 open MRL
 
@@ -149,6 +151,9 @@ structure St where
   /-- incremental power-loss cache: `prun (PState.init []) (first pBaseK operations)` -/
   pBaseK : Nat := 0
   pBase : PState := PState.init []
+  /-- the same cache for the lazier-directory model (`prunD` is a fold too) -/
+  dBaseK : Nat := 0
+  dBase : DState := DState.init []
   baseImg : Image := []
   /-- `snapshot` / `restore` of the directory (damage campaigns) -/
   snap : Image := []
@@ -227,7 +232,7 @@ def callOf (toks : List String) : Option Call :=
 /-- one operation on a state; returns output lines -/
 def runOp (msz : Nat) (jc : Bool) (st : St) (toks : List String) : St × List String :=
   match toks with
-  | "open" :: _ => openOn { st with opsRev := [], baseK := 0, baseImg := [], opsPRev := [], pBaseK := 0, pBase := PState.init [], journal := [], journalOk := jc } [] toks none
+  | "open" :: _ => openOn { st with opsRev := [], baseK := 0, baseImg := [], opsPRev := [], pBaseK := 0, pBase := PState.init [], dBaseK := 0, dBase := DState.init [], journal := [], journalOk := jc } [] toks none
   | "reopen" :: _ =>
     -- drop: the `BufWriter` is flushed, then the directory is opened again
     let st1 := (st.absorb [.flush]).sync
@@ -283,6 +288,14 @@ def runOp (msz : Nat) (jc : Bool) (st : St) (toks : List String) : St × List St
       -- the GC visits the queues that are empty after the call: resolve hashes against all names
       let names := l.queues.map (·.1)
       let order := resolveOrder names (orderToks toks)
+      -- the panic-instrumented twin decides first whether the checked u64 arithmetic of the real
+      -- code overflows during this call (`C05B.stepP_ok`: otherwise it IS `Log.step`)
+      match l.stepP geom c (parseTick toks) order with
+      | .error esP =>
+        -- the harness drops the log after a panic: the `BufWriter` is flushed
+        let st1 := ((st.absorb esP).absorb [.flush]).sync
+        ({ st1 with log := none, journalOk := false }, ["R PANIC", effLine esP])
+      | .ok _ =>
       let (l', out, es) := l.step geom c (parseTick toks) order
       let j := st.journal ++ l.stepJ geom c order
       let ok := st.journalOk && jcheck l' j
@@ -355,8 +368,18 @@ def runCrash (top : Top) (toks : List String) : Top × List String :=
       let opsP := m.opsPRev.reverse
       let (pk, ps) := if m.pBaseK ≤ i then (m.pBaseK, m.pBase) else (0, PState.init [])
       let ps' := prun ps ((opsP.drop pk).take (i - pk))
-      ({ m with baseK := k, baseImg := bimg', pBaseK := i, pBase := ps' }, ps'.image)
-    | none => ({ m with baseK := k, baseImg := bimg' }, img0)
+      -- `undone=N`: the last N unlinks issued since the last fsync(dir) are not durable
+      -- (`powerImageD` of MRL/Model/PowerLossDir.lean, the object of `C03PD.C03_posix_dir_partial`)
+      let (pimg, dk', d') := match (kvGet toks "undone").bind (·.toNat?) with
+        | some n =>
+          let (dk, ds) := if m.dBaseK ≤ i then (m.dBaseK, m.dBase) else (0, DState.init [])
+          let d := prunD ds ((opsP.drop dk).take (i - dk))
+          (d.image (d.und.length - n), min i opsP.length, d)
+        | none => (ps'.image, m.dBaseK, m.dBase)
+      -- the caches are valid only for prefixes of what has been issued so far (`Glue.cache_stable`)
+      ({ m with baseK := min k ops.length, baseImg := bimg', pBaseK := min i opsP.length, pBase := ps',
+                dBaseK := dk', dBase := d' }, pimg)
+    | none => ({ m with baseK := min k ops.length, baseImg := bimg' }, img0)
   let (side, out) := openOn {} img (toks.drop 2) ((kvGet toks "fail").bind (·.toNat?))
   ({ top with main := main', side := side }, dirLine img :: out)
 
